@@ -41,6 +41,55 @@ FINISH = ['respond', 'raw-writer', 'upgrade', 'drop', 'panic', 'respond-failing-
 READS = ['none', 'part', 'all']
 
 
+def body_in_flight(S, rep, tier):
+    """the request is answered / dropped while (part of) its declared body has not arrived and the client is waiting for the
+    answer (an Expect: 100-continue client that never got its go-ahead; a large upload that is being refused): the final
+    response must be on the wire without any further byte from the client -- a 500 that is only written after the body has
+    been skipped never arrives"""
+    SHAPES = [('expect-body-withheld', b'Expect: 100-continue\r\nContent-Length: 5\r\n', b''),
+              ('large-body-partly-sent', b'Content-Length: 1500\r\n', b'0123456789'),
+              ('chunked-body-partly-sent', b'Transfer-Encoding: chunked\r\n', b'5\r\nab')]
+    FIN = ['drop', 'panic', 'respond']
+
+    def h(ctx):
+        name, hdrs, sent = SHAPES[ctx.choose(len(SHAPES), 'shape')]
+        fin = FIN[ctx.choose(len(FIN), 'finish')]
+        data = K(b'POST /0 HTTP/1.1\r\nHost: h\r\n' + hdrs + b'\r\n' + sent)
+        cv = Conv(S, ctx, data, end='block')
+        sc = {'kind': 'conversation', 'shape': name, 'finish': fin, 'text': bytes(conc(x) for x in data).decode('latin1'), 'half_close': False}
+        rq = cv.next()
+        if rq is None or rq is PARKED:
+            ctx.check_always(z3.BoolVal(False), 'request-delivered', lambda m: sc)
+            return None
+        ctx.event('witness', name)
+        ctx.event('witness', 'in-flight-' + fin)
+        it = cv.it
+        try:
+            if fin == 'respond':
+                cv.respond(rq, cv.response('data', 403, b'no'))
+            elif fin == 'panic':
+                ctx.data['panicking'] = True
+                try:
+                    it.drop_value(rq)
+                finally:
+                    ctx.data['panicking'] = False
+            else:
+                it.drop_value(rq)
+        except Blocked as b:
+            cv.blocked = b          # waiting for the rest of the body AFTER the answer is fine (the client closes or sends it)
+        out = cv.output()
+        rs = parse_responses(out) if out is not None else None
+        finals = [r.get('status') for r in (rs or []) if (r.get('status') or 0) >= 200]
+        want = [403] if fin == 'respond' else [500]
+        ctx.check_always(z3.BoolVal(finals == want), 'final-response-does-not-wait-for-the-rest-of-the-body', lambda m: dict(sc, got=finals, expected=want))
+        return True
+
+    S.run('body-in-flight', h, witnesses=[x[0] for x in SHAPES] + ['in-flight-' + f for f in FIN], max_paths=2000,
+          bound='one request whose body is withheld (Expect: 100-continue) or only partly sent (Content-Length 1500 / chunked), client waiting; '
+                'finishing actions %s' % FIN)
+    collect_simple(S, rep, 'C06', 'body-in-flight')
+
+
 def run(L, rep, tier, seed):
     S = Session(L, rep, seed)
     rep.assumptions += ['a handler that panics while holding the request = the request is dropped during unwinding (same Drop code)',
@@ -167,5 +216,6 @@ def run(L, rep, tier, seed):
           bound='two pipelined requests (first: POST or HEAD, with or without Expect: 100-continue; bodies of 3 and 2 bytes), answer order both '
                 'ways, finishing actions %s, body reads %s' % (FINISH, READS))
     collect_simple(S, rep, 'C06', 'programs')
+    body_in_flight(S, rep, tier)
     # a dropped (never written) writer does not hold up or overtake its neighbours: schedules of the kernel
     c01.kernel_bmc(S, rep, tier, seed, prop='C06')
